@@ -392,7 +392,9 @@ func genFail(t *rapid.T) FailCase {
 		c.Files = []string{pick()}
 		c.Names = []string{"f0.yaml", "does-not-exist.yaml"}
 	case "encode":
-		enc := rapid.SampledFrom([][2]string{{"-o=csv", "a: {b: {c: 1}}\n"}, {"-o=tsv", "a: {b: 1}\n"}, {"-o=xml", "- 1\n- 2\n"}, {"-o=toml", "a: {b: 1}\n"}, {"-o=base64", "a: 1\n"}, {"-o=uri", "- 1\n"}, {"-o=json", "a: .inf\n"}, {"-o=json", "a: .nan\n"}, {"-o=csv", "- a: {c: 2}\n- a: 1\n"}}).Draw(t, "enc")
+		enc := rapid.SampledFrom([][2]string{{"-o=csv", "a: {b: {c: 1}}\n"},
+			// a key that is a sequence or a map (YAML only): formats whose keys are text cannot write it
+			{"-o=json", "? [a, b]\n: v1\nz: 2\n"}, {"-o=props", "? {k: 1}\n: v1\nz: 2\n"}, {"-o=shell", "z: 2\n? {k: 1}\n: v1\n"}, {"-o=csv", "- ? [a]\n  : 1\n"}, {"-o=tsv", "- ? [a]\n  : 1\n"}, {"-o=json", "- a: {? [k]: 1}\n"}, {"-o=tsv", "a: {b: 1}\n"}, {"-o=xml", "- 1\n- 2\n"}, {"-o=toml", "a: {b: 1}\n"}, {"-o=base64", "a: 1\n"}, {"-o=uri", "- 1\n"}, {"-o=json", "a: .inf\n"}, {"-o=json", "a: .nan\n"}, {"-o=csv", "- a: {c: 2}\n- a: 1\n"}}).Draw(t, "enc")
 		c.Args = []string{enc[0], "--expression", "."}
 		c.Files = []string{enc[1]}
 	case "bad_flag_value":
